@@ -10,15 +10,16 @@ class Proxy:
 
     nested = True      # a module run through a proxy does not run other modules through proxies again
 
-    def __init__(self, ctx, select, as_rule, exclude=()):
-        self._ctx, self._sel, self._as, self._ex = ctx, select, as_rule, tuple(exclude)
+    def __init__(self, ctx, select, as_rule, exclude=(), only=()):
+        self._ctx, self._sel, self._as, self._ex, self._only = ctx, select, as_rule, tuple(exclude), tuple(only)
 
     def __getattr__(self, name):
         return getattr(self._ctx, name)
 
     def _on(self, rule, key=""):
         # `exclude`: instances on functions that are not part of the borrowing property (matched on the function key)
-        return any(rule == s or rule.startswith(s) for s in self._sel) and not any(x in (key or "") for x in self._ex)
+        return any(rule == s or rule.startswith(s) for s in self._sel) and not any(x in (key or "") for x in self._ex) and \
+            (not self._only or any(x in (key or "") for x in self._only))
 
     def ok(self, rule, key, detail="", loc=None):
         if self._on(rule, key):
@@ -41,7 +42,7 @@ class Proxy:
             self._ctx.unrecognised(self._as, fn, "[%s] %s" % (rule, what), msg)
 
     def floor(self, rule, what, n, least):
-        if self._on(rule):
+        if self._on(rule) and not self._only:
             self._ctx.floor(self._as, "[%s] %s" % (rule, what), n, least)
 
 
